@@ -120,6 +120,9 @@ def generate(rng, i, tier):
             b = {"op": "bulk", "kind": kind, "n": rng.choice([59, 60, 61, 130, 400]), "price": 800.0}
             if kind == "replace" and rng.random() < 0.5:
                 b["mvs"] = [None, "cur"]
+            if rng.random() < 0.4:
+                b["lead"] = [dict(proto)]
+                b["lead_exec"] = rng.random() < 0.5
             ups[-1].setdefault("acts", {}).setdefault(s0["name"], []).append(b)
     return sc
 
